@@ -426,7 +426,8 @@ def store_strategy(cls):
 
 
 # ---------------------------------------------------------------------------------- unusual item values
-VALUES = [None, 0, "", False, (), 0.0, 1, "a", "eos", 7]
+# 0, False and 0.0 (1, True and 1.0) are equal but not the same item: a filter can tell them apart
+VALUES = [None, 0, "", False, (), 0.0, 1, "a", "eos", 7, 1.0, True]
 VFILTERS = {
     "any": lambda it: True,
     "is_none": lambda it: it is None,
@@ -434,6 +435,8 @@ VFILTERS = {
     "truthy": lambda it: bool(it),
     "str": lambda it: isinstance(it, str),
     "never": lambda it: False,
+    "float": lambda it: isinstance(it, float),
+    "bool": lambda it: isinstance(it, bool),
 }
 
 
